@@ -9,6 +9,8 @@ S=$(mktemp -d /tmp/mutiso.XXXXXX)
 W=$S/repo
 V=$S/verif
 cleanup() {
+  # KEEP_FOUND=<dir>: keep the replay files the mutated run found (e.g. to turn one into a committed probe)
+  if [ -n "$KEEP_FOUND" ] && [ -d "$V/replays/found" ]; then mkdir -p "$KEEP_FOUND"; cp "$V"/replays/found/*.json "$KEEP_FOUND"/ 2>/dev/null; fi
   git -C /repo worktree remove --force "$W" >/dev/null 2>&1
   git -C /repo worktree prune >/dev/null 2>&1
   rm -rf "$S"
